@@ -1,6 +1,7 @@
 package main
 
 import (
+	"encoding/json"
 	"flag"
 	"fmt"
 	"os"
@@ -24,6 +25,8 @@ func main() {
 		os.Exit(cmdCheck(os.Args[2:]))
 	case "list":
 		cmdList(os.Args[2:])
+	case "replay":
+		os.Exit(cmdReplay(os.Args[2:]))
 	default:
 		fmt.Fprintln(os.Stderr, "unknown command", os.Args[1])
 		os.Exit(2)
@@ -199,4 +202,48 @@ func dumpObligation(r *FuncResult, name, dir string) {
 			os.WriteFile(filepath.Join(dir, sanitize(ob.Name)+".smt2"), []byte(ob.Script(true)), 0o644)
 		}
 	}
+}
+
+// cmdReplay re-runs the Go test recorded in a replay file against /repo and prints what the real code does.
+func cmdReplay(args []string) int {
+	if len(args) < 1 {
+		fmt.Fprintln(os.Stderr, "usage: govc replay <replay.json> [repo]")
+		return 2
+	}
+	repo := "/repo"
+	if len(args) > 1 {
+		repo = args[1]
+	}
+	data, err := os.ReadFile(args[0])
+	if err != nil {
+		fmt.Fprintln(os.Stderr, err)
+		return 2
+	}
+	var rec struct {
+		Obligation string `json:"obligation"`
+		Clause     string `json:"clause"`
+		Function   string `json:"function"`
+		Replay     *struct {
+			Confirmed bool   `json:"confirmed"`
+			Note      string `json:"note"`
+			TestFile  string `json:"test_file"`
+			Package   string `json:"package"`
+		} `json:"replay"`
+	}
+	if err := json.Unmarshal(data, &rec); err != nil {
+		fmt.Fprintln(os.Stderr, err)
+		return 2
+	}
+	fmt.Printf("obligation: %s\nclause: %s\n", rec.Obligation, rec.Clause)
+	if rec.Replay == nil || rec.Replay.TestFile == "" {
+		fmt.Println("no replayable input recorded (no-failing-input-found)")
+		return 1
+	}
+	out, err := runReplayTest(repo, rec.Replay.Package, rec.Replay.TestFile)
+	fmt.Println(out)
+	fmt.Println("recorded verdict:", rec.Replay.Note)
+	if err != nil {
+		return 2
+	}
+	return 1
 }
